@@ -48,6 +48,8 @@ type c16Scenario struct {
 	Condition  string `json:"condition,omitempty"` // which policy condition the target node shows: ready-false | badnode-true | both | none
 	Standalone bool   `json:"standalone,omitempty"`
 	SecondOff  int    `json:"secondOffsetSec,omitempty"`
+	// Policies: order and tolerations of the provider's repair policies: "ready10,bad30" | "bad30,ready10" | "ready30,bad10" | "bad10,ready30"
+	Policies string `json:"policies,omitempty"`
 }
 
 var c16Offsets = []int{-3600, -61, -1, 0, 1, 61, 3600}
@@ -72,7 +74,8 @@ func drawC16(t *rapid.T) *c16Scenario {
 		s.Unhealthy = rapid.IntRange(0, s.PoolNodes-1).Draw(t, "unhealthy")
 		s.Condition = rapid.SampledFrom([]string{"ready-false", "ready-false", "badnode-true", "both", "none"}).Draw(t, "condition")
 		s.Standalone = rapid.IntRange(0, 4).Draw(t, "standalone") == 0
-		s.SecondOff = rapid.SampledFrom(c16Offsets).Draw(t, "secondOffset")
+		s.SecondOff = rapid.SampledFrom(append([]int{-1500, 1500, -900, 900}, c16Offsets...)).Draw(t, "secondOffset")
+		s.Policies = rapid.SampledFrom([]string{"ready10,bad30", "bad30,ready10", "ready30,bad10", "bad10,ready30"}).Draw(t, "policies")
 	}
 	return s
 }
@@ -80,6 +83,20 @@ func drawC16(t *rapid.T) *c16Scenario {
 var c16Policies = []cloudprovider.RepairPolicy{
 	{ConditionType: corev1.NodeReady, ConditionStatus: corev1.ConditionFalse, TolerationDuration: 10 * time.Minute},
 	{ConditionType: "BadNode", ConditionStatus: corev1.ConditionTrue, TolerationDuration: 30 * time.Minute},
+}
+
+// c16PoliciesFor decodes the scenario's policy list: the policies in provider order and the two tolerations.
+func c16PoliciesFor(spec string) ([]cloudprovider.RepairPolicy, time.Duration, time.Duration) {
+	readyTol, badTol := 10*time.Minute, 30*time.Minute
+	if spec == "ready30,bad10" || spec == "bad10,ready30" {
+		readyTol, badTol = 30*time.Minute, 10*time.Minute
+	}
+	ready := cloudprovider.RepairPolicy{ConditionType: corev1.NodeReady, ConditionStatus: corev1.ConditionFalse, TolerationDuration: readyTol}
+	bad := cloudprovider.RepairPolicy{ConditionType: "BadNode", ConditionStatus: corev1.ConditionTrue, TolerationDuration: badTol}
+	if spec == "bad30,ready10" || spec == "bad10,ready30" {
+		return []cloudprovider.RepairPolicy{bad, ready}, readyTol, badTol
+	}
+	return []cloudprovider.RepairPolicy{ready, bad}, readyTol, badTol
 }
 
 type c16Run struct {
@@ -289,12 +306,14 @@ func runC16(s *c16Scenario, faultIdx int) *c16Run {
 		nc.StatusConditions().SetTrue(v1.ConditionTypeInitialized)
 		w.Apply(nc)
 		target := c16Node("node-target", nc.Status.ProviderID, poolName, true, now.Add(-3*time.Hour))
-		readySince, badSince := now.Add(-10*time.Minute-off), now.Add(-30*time.Minute-time.Duration(s.SecondOff)*time.Second)
+		policies, readyTol, badTol := c16PoliciesFor(s.Policies)
+		w.Provider.Repair = policies
+		readySince, badSince := now.Add(-readyTol-off), now.Add(-badTol-time.Duration(s.SecondOff)*time.Second)
 		switch s.Condition {
 		case "ready-false":
 			target.Status.Conditions = []corev1.NodeCondition{{Type: corev1.NodeReady, Status: corev1.ConditionFalse, LastTransitionTime: metav1.NewTime(readySince)}}
 		case "badnode-true":
-			badSince = now.Add(-30*time.Minute - off)
+			badSince = now.Add(-badTol - off)
 			target.Status.Conditions = append(target.Status.Conditions, corev1.NodeCondition{Type: "BadNode", Status: corev1.ConditionTrue, LastTransitionTime: metav1.NewTime(badSince)})
 		case "both":
 			target.Status.Conditions = []corev1.NodeCondition{{Type: corev1.NodeReady, Status: corev1.ConditionFalse, LastTransitionTime: metav1.NewTime(readySince)},
@@ -316,10 +335,10 @@ func runC16(s *c16Scenario, faultIdx int) *c16Run {
 			lasted := false
 			readyFalse := s.Condition == "ready-false" || s.Condition == "both"
 			badTrue := s.Condition == "badnode-true" || s.Condition == "both"
-			if readyFalse && !now.Before(readySince.Add(10*time.Minute)) {
+			if readyFalse && !now.Before(readySince.Add(readyTol)) {
 				lasted = true
 			}
-			if badTrue && !now.Before(badSince.Add(30*time.Minute)) {
+			if badTrue && !now.Before(badSince.Add(badTol)) {
 				lasted = true
 			}
 			unhealthy := s.Unhealthy
@@ -331,7 +350,7 @@ func runC16(s *c16Scenario, faultIdx int) *c16Run {
 			case !readyFalse && !badTrue:
 				violate("health:healthy-node", "a node showing no unhealthy condition was repaired (deleted)")
 			case !lasted:
-				violate("health:early", "node repaired before any unhealthy condition lasted its toleration (condition %s, offsets %ds / %ds)", s.Condition, s.OffsetSec, s.SecondOff)
+				violate("health:early", "node repaired before any unhealthy condition lasted its toleration (condition %s, policies %s, offsets %ds / %ds)", s.Condition, s.Policies, s.OffsetSec, s.SecondOff)
 			case unhealthy > threshold:
 				violate("health:too-many-unhealthy", "node repaired although %d of %d nodes are unhealthy (allowed %d)", unhealthy, s.PoolNodes, threshold)
 			case faultBeforeDelete:
